@@ -111,3 +111,12 @@ def harnesses(ctx, tier):
     for name, sb, mods in T:
         hs.append(text_template(name, list(sb), mods, N))
     return hs
+
+ASSUMPTIONS = ["program dimension: a fixed family of text-string templates (literal bytes concrete, chosen to move the atom to start/middle/end, to fit in an atom, to truncate wide atoms, to interleave ascii/wide, xor ranges); input dimension (buffer bytes and length) symbolic",
+               "buffers <= 6 bytes (8 thorough), single block at base 0; strings <= 6 bytes",
+               "atom extraction checked for ANY quality function (nondeterministic per call)",
+               "stubs: notebook -> malloc, configuration constants, lowercase table filled by the same loop as yr_initialize",
+               "base64 modifiers and the automaton builder on symbolic atoms are outside this round (builder: P19, 65 GB)"]
+LEVEL_TEXT = ("Bounded model checking: for each template the solver covers every buffer up to the bound (offset 0, last byte, overlaps, fullword neighbours, "
+              "interleaved ascii/wide, every xor key) against an occurrence predicate written from the manual; atom extraction is checked for every string up to 6 bytes.")
+LEVEL_NOTE = "; ".join(ASSUMPTIONS)
